@@ -1,7 +1,7 @@
 SPECIFICATION Spec
 CONSTANTS
-  MaxN = 200
-  Basis = "corners"
+  MaxN = 300
+  Basis = "lengths"
   Variant = "fixed"
 INVARIANT Full
 INVARIANT Same
@@ -9,3 +9,4 @@ INVARIANT PadFits
 INVARIANT Helpers
 INVARIANT FilterAxes
 CHECK_DEADLOCK FALSE
+POSTCONDITION Export
